@@ -256,7 +256,8 @@ struct WL {
             for (int t = 0; t < n; t++)
                 while (!slots[t].empty()) drop_one(slots[t], 0);
         {
-            Scope sc;
+            // (no Scope here: the statement requires the callback only for objects reaped
+            //  by destroyObjects(); how the destructor lets go of the rest is its business)
             {
                 gsim::Oracle o;
                 st.container_alive = false;  // no re-entry into a container that is being destroyed
